@@ -23,7 +23,7 @@ NOT_COVERED = ["strategy='update' with horizon-dependent forecasters (direct/mul
                "horizon per fold, which these forecasters reject after the first fold", "fit_params"]
 ASSUMPTIONS = ["splits are taken from the splitter itself (their correctness is C01's business)"]
 JOBS = {"quick": 4, "thorough": 16}
-METRICS = [None, "mape", "asym", "asym_fn", "mse", "smape", "neg_mae", "neg_asym", "rmspe", "mdspe", "mdae", "rmse"]    # neg_*: user-made scorers declared greater-is-better
+METRICS = [None, "mape", "asym", "asym_fn", "mse", "smape", "neg_mae", "neg_asym", "rmspe", "mdspe", "mdae", "rmse", "asym_thr"]    # neg_*: user-made scorers declared greater-is-better
 FORECASTERS = [
     ["spy-naive", {"strategy": "last"}], ["spy-naive", {"strategy": "mean", "window_length": 4}], ["spy-poly", {"degree": 1}],
     ["naive", {"strategy": "drift"}], ["naive", {"strategy": "last", "sp": 3}], ["poly", {"degree": 2}],
@@ -157,7 +157,7 @@ def run_case(case, ctx):
         if len(res) != len(splits) or col not in res.columns:
             return
         for i, r in enumerate(ref_rows):
-            ctx.check("row.score", _close(res[col].iloc[i], r["score"]), "evaluate:score-differs:%s" % ("asymmetric-metric" if case["scoring"] in ("mape", "asym", "asym_fn", "neg_asym") else "metric"),
+            ctx.check("row.score", _close(res[col].iloc[i], r["score"]), "evaluate:score-differs:%s" % ("asymmetric-metric" if case["scoring"] in ("mape", "asym", "asym_thr", "asym_fn", "neg_asym") else "metric"),
                       "score of fold %d differs from metric(y_true, y_pred) of an honest fold computation" % i, fold=i, got=float(res[col].iloc[i]),
                       expected=r["score"], metric=metric.name, strategy=case["strategy"])
             ctx.check("row.cutoff", res["cutoff"].iloc[i] == r["cutoff"], "evaluate:cutoff-differs", "cutoff column wrong", fold=i,
